@@ -657,7 +657,20 @@ def setup():
     return 0 if ok else 1
 
 
+def repo_lock(exclusive=False):
+    """checks hold a shared lock while they build from /repo; tools/with_mutation holds it exclusively
+    while a trial patch is applied to /repo, so concurrent checks never see a half-mutated tree"""
+    if os.environ.get("VERIF_LOCK_HELD"):
+        return None
+    import fcntl
+    os.makedirs(BUILD, exist_ok=True)
+    f = open(os.path.join(BUILD, ".repo.lock"), "w")
+    fcntl.flock(f, fcntl.LOCK_EX if exclusive else fcntl.LOCK_SH)
+    return f
+
+
 def main():
+    _lock = repo_lock()
     a = sys.argv[1:]
     if a and a[0] == "--setup":
         sys.exit(setup())
